@@ -206,6 +206,78 @@ pub fn c05(args: &Args) -> Report {
     let mut rep = Report::new("C05", &args.leg(), &args.tier(), args.seed());
     let n = if args.thorough() { 4000 } else { 250 };
     let per_state = if args.thorough() { 60 } else { 30 };
+    // Directed battery: one designed state (events that match a constraint only through a later tag of the same
+    // name, several current events of one author and parameterised kind that share a later d value, ties, an event
+    // matching two listed values) queried with EVERY combination of clauses - ids, authors, kinds, one #d value,
+    // two #d values, #t, since, until - times three limits, i.e. every index plan with every further clause on top.
+    if only_index(args).is_none() {
+        let mut rng = hist_rng(args.seed(), 0xC05D, 0);
+        let mut eng = Eng::new(&mut rep, "C05", "c05directed", args.seed(), 9_999_999, base_flags(), 0);
+        let a0 = author(0);
+        let a1 = author(1);
+        let mk = |rng: &mut Rng, pk: Id32, kind: u16, t: u64, tags: Vec<Vec<&str>>| SemEvent {
+            id: rng.arr32(), pubkey: pk, sig: [0x51; 64], kind, created_at: t,
+            tags: tags.into_iter().map(|t| t.into_iter().map(|s| s.to_string()).collect()).collect(), content: String::new(),
+        };
+        let evs = vec![
+            mk(&mut rng, a0, 30023, 100, vec![vec!["d", "x"], vec!["t", "a"]]),
+            mk(&mut rng, a0, 30023, 101, vec![vec!["d", "y"], vec!["d", "x"], vec!["t", "b"]]),
+            mk(&mut rng, a0, 30023, 102, vec![vec!["d", "z"], vec!["t", "a"], vec!["t", "b"]]),
+            mk(&mut rng, a1, 30023, 101, vec![vec!["d", "x"]]),
+            mk(&mut rng, a0, 30024, 101, vec![vec!["d", "x"], vec!["t", "a"]]),
+            mk(&mut rng, a0, 1, 100, vec![vec!["d", "x"], vec!["t", "a"]]),
+            mk(&mut rng, a0, 1, 100, vec![vec!["t", "a"], vec!["d", "q"], vec!["d", "x"]]),
+            mk(&mut rng, a1, 1, 102, vec![vec!["t", "b"], vec!["t", "a"]]),
+            mk(&mut rng, a0, 10002, 101, vec![vec!["d", "x"]]),
+            mk(&mut rng, a1, 7, 103, vec![vec!["d", "y"], vec!["t", "c"]]),
+        ];
+        let mut stored: Vec<Id32> = vec![];
+        for e in evs {
+            if let Some(ev) = Ev::new(e) {
+                stored.push(ev.sem.id);
+                let _ = eng.store(&ev);
+            }
+        }
+        let mut nq = 0u64;
+        for mask in 1u32..256 {
+            if eng.aborted {
+                break;
+            }
+            let mut f = SemFilter::empty();
+            if mask & 1 != 0 {
+                f.ids = vec![stored[0], stored[1], stored[3], stored[6], [0xEE; 32]];
+            }
+            if mask & 2 != 0 {
+                f.authors = vec![a0];
+            }
+            if mask & 4 != 0 {
+                f.kinds = vec![30023, 1];
+            }
+            if mask & 8 != 0 && mask & 16 == 0 {
+                f.tags.push(("d".into(), vec!["x".into()]));
+            }
+            if mask & 16 != 0 {
+                f.tags.push(("d".into(), vec!["x".into(), "y".into()]));
+            }
+            if mask & 32 != 0 {
+                f.tags.push(("t".into(), vec!["a".into(), "b".into()]));
+            }
+            if mask & 64 != 0 {
+                f.since = Some(101);
+            }
+            if mask & 128 != 0 {
+                f.until = Some(101);
+            }
+            for limit in [None, Some(1u32), Some(2)] {
+                let mut g = f.clone();
+                g.limit = limit;
+                let _ = eng.check_query(&g, 0, (true, 0, 0), &["C05"], "directed clause combination");
+                nq += 1;
+            }
+        }
+        eng.rep.count_n("directed_clause_combination_queries", nq);
+        eng.finish();
+    }
     for i in 0..n {
         if let Some(x) = only_index(args) {
             if x != i {
@@ -296,6 +368,9 @@ pub fn c05(args: &Args) -> Report {
         }
         if rep.counter("queries_cut_by_limit") == 0 {
             gaps.push("no query was cut by its limit".to_string());
+        }
+        if rep.counter("directed_clause_combination_queries") == 0 {
+            gaps.push("the directed clause-combination battery did not run".to_string());
         }
         if !gaps.is_empty() {
             let _ = rep.extra.insert("coverage_gaps".into(), json!(gaps));
